@@ -22,7 +22,8 @@ use serde_json::{Value, json};
 use std::collections::BTreeSet;
 use std::sync::atomic::{AtomicU64, Ordering};
 use vcore::Report;
-use vcore::bfs::{BfsOpts, Model, bfs};
+use h_drv::bfs_reuse::bfs;
+use vcore::bfs::{BfsOpts, Model};
 
 const BG_BASE: u64 = 1 << 40;
 const RESULT: u8 = 0x08;
@@ -115,6 +116,8 @@ struct Obj {
     owed_count: usize,
     broken: bool,
     steps_nontrivial: bool,
+    /// read-back of the map after the last transition
+    snap: Option<hook::MapSnapshot>,
 }
 
 struct M {
@@ -171,7 +174,12 @@ impl M {
         }
     }
 
+    /// the read-back taken at the end of the last transition (nothing touches the map between transitions)
     fn snapshot_fg(&self, o: &Obj) -> Option<hook::MapSnapshot> {
+        o.snap.clone()
+    }
+    /// read the map's collections back through the hook now
+    fn fresh(&self, o: &Obj) -> Option<hook::MapSnapshot> {
         o.map.as_ref().map(|m| m.snapshot(64, BG_BASE))
     }
 
@@ -213,7 +221,8 @@ impl Model for M {
         } else {
             None
         };
-        Obj { map: Some(map), bg, bg_answered: BTreeSet::new(), reqs: Vec::new(), next_rid: 0, owed, owed_count, broken: false, steps_nontrivial: false }
+        let snap = Some(map.snapshot(64, BG_BASE));
+        Obj { map: Some(map), bg, bg_answered: BTreeSet::new(), reqs: Vec::new(), next_rid: 0, owed, owed_count, broken: false, steps_nontrivial: false, snap }
     }
 
     fn enabled(&self, o: &Obj) -> Vec<Ev> {
@@ -383,7 +392,7 @@ impl Model for M {
                     }
                 }
                 if q.phase != Phase::Written {
-                    let after = self.snapshot_fg(o);
+                    let after = self.fresh(o);
                     if before != after {
                         return Err(format!("orphan:late-or-early-notice-changed-map|the notice for request {rid} in phase {:?} changed the map: before {before:?} after {after:?}", o.reqs[i].phase));
                     }
@@ -398,7 +407,7 @@ impl Model for M {
             Ev::StrayNotice => {
                 let before = self.snapshot_fg(o);
                 o.map.as_mut().unwrap().orphan(1 << 50);
-                let after = self.snapshot_fg(o);
+                let after = self.fresh(o);
                 if before != after {
                     return Err(format!("orphan:unknown-request-changed-map|a notice for a request id the map never saw changed it: before {before:?} after {after:?}"));
                 }
@@ -445,12 +454,15 @@ impl Model for M {
         // a request that is answered (or refused) and from whose caller nothing more can come is over -
         // unless the map still mentions it (then it stays, so that the canonical form hides nothing)
         if !o.broken {
-            let snap = self.snapshot_fg(o).unwrap();
+            let snap = self.fresh(o).unwrap();
             o.reqs.retain(|q| {
                 let over = matches!(q.phase, Phase::Answered | Phase::Refused) && q.caller == Caller::Noticed;
                 let mentioned = snap.request_to_stream.iter().any(|(r, _)| *r == q.rid) || snap.handlers.iter().any(|(_, r)| *r == q.rid);
                 !(over && !mentioned)
             });
+            o.snap = Some(snap);
+        } else {
+            o.snap = None;
         }
         o.steps_nontrivial = o.reqs.iter().any(|q| q.phase == Phase::Written && q.caller == Caller::Cancelled);
         Ok(())
@@ -598,7 +610,10 @@ fn scenarios(thorough: bool) -> Vec<Scenario> {
             // three requests alive with the lean alphabet
             v.push(Scenario { lean: true, with_break: false, name: format!("prefill-32768-minus-{j}-lean-k3"), k: 3, prefill: 32768 - j, bg_candidates: vec![0, 63, 64, 32767], bg_budget: 1 });
         } else {
-            v.push(Scenario { lean: true, with_break: false, name: format!("prefill-32768-minus-{j}"), k: 2, prefill: 32768 - j, bg_candidates: vec![0, 63, 64, 32767], bg_budget: 1 });
+            // (quick: j = 0 and 1; with two requests alive j = 2 never refuses, it is left to the thorough tier)
+            if j < 2 {
+                v.push(Scenario { lean: true, with_break: false, name: format!("prefill-32768-minus-{j}"), k: 2, prefill: 32768 - j, bg_candidates: vec![0, 63, 64, 32767], bg_budget: 1 });
+            }
         }
     }
     v
@@ -692,7 +707,7 @@ fn main() {
     let per_scenario_m = &per_scenario_m;
     scope.spawn(move || {
         let m = M::new(sc.k, sc.prefill, sc.bg_candidates.clone(), sc.bg_budget, sc.with_break, sc.lean);
-        let opts = BfsOpts { max_depth: 200, max_states: 3_000_000, wall: std::time::Duration::from_secs(if thorough { 2400 } else { 50 }), jobs, max_violations: 8 };
+        let opts = BfsOpts { max_depth: 200, max_states: 3_000_000, wall: std::time::Duration::from_secs(if thorough { 2400 } else { 55 }), jobs, max_violations: 8 };
         let t0 = std::time::Instant::now();
         let res = bfs(&CatchModel(&m), &opts);
         for v in &res.violations {
